@@ -5,6 +5,7 @@ import (
 	"runtime"
 	"sort"
 	"sync"
+	"sync/atomic"
 	"time"
 
 	"github.com/junegunn/fzf/src/util"
@@ -17,6 +18,7 @@ type MatchRequest struct {
 	final    bool
 	sort     bool
 	revision revision
+	seq      uint64
 }
 
 // Matcher is responsible for performing search
@@ -31,6 +33,7 @@ type Matcher struct {
 	slab           []*util.Slab
 	mergerCache    map[string]*Merger
 	revision       revision
+	seq            uint64
 }
 
 const (
@@ -71,7 +74,11 @@ func (m *Matcher) Loop() {
 				}
 				switch val := val.(type) {
 				case MatchRequest:
-					request = val
+					// Both the retry and the reset slots can be pending; take the
+					// newer one regardless of the iteration order of the map
+					if val.seq >= request.seq {
+						request = val
+					}
 				default:
 					panic(fmt.Sprintf("Unexpected type: %T", val))
 				}
@@ -256,7 +263,8 @@ func (m *Matcher) Reset(chunks []*Chunk, patternRunes []rune, cancel bool, final
 	} else {
 		event = reqRetry
 	}
-	m.reqBox.Set(event, MatchRequest{chunks, pattern, final, sort, revision})
+	seq := atomic.AddUint64(&m.seq, 1)
+	m.reqBox.Set(event, MatchRequest{chunks, pattern, final, sort, revision, seq})
 }
 
 func (m *Matcher) Stop() {
